@@ -564,6 +564,22 @@ pub fn run(opts: &Opts, out: &mut Emitter, c04: bool) {
         }
         emit(out, "multi", &st, &qs, true);
     }
+    // a collateral block between two ordinary blocks in the order the resolver follows (names), all three drawing
+    // on the same few plain UTxOs of one party: what the collateral lands on stays taken for the block after it
+    for size in 1..=3usize {
+        for amounts in 0..3 {
+            for many_after in [false, true] {
+                let st: Vec<U> = (0..size)
+                    .map(|i| U { txid: (i + 1) as u8, index: 0, addr: "A", assets: vec![("L", [5i128, 5, 9][(i + amounts) % 3])] })
+                    .collect();
+                let plain = |name: &str, many: bool, coll: bool| Q { name: name.into(), addr: Some("A"), min: Some(vec![("L", 1)]), refs: vec![], many, collateral: coll };
+                let qs = vec![plain("b0", false, false), plain("collateral", false, true), plain("p1", many_after, false)];
+                emit(out, "collateral-between", &st, &qs, true);
+                let qs2 = vec![plain("b0", false, false), plain("collateral", false, true), plain("p1", many_after, false), plain("q2", false, false)];
+                emit(out, "collateral-between", &st, &qs2, true);
+            }
+        }
+    }
     // a block whose target needs padding from loose matches (token + lovelace, several UTxOs), next to
     // blocks that take the plain-lovelace UTxOs of the same party — in both name orders
     for _ in 0..rounds / 3 {
